@@ -2,6 +2,8 @@ package props
 
 import (
 	"fmt"
+	"github.com/tobgu/qframe"
+	"github.com/tobgu/qframe/config/groupby"
 	"sort"
 	"testing"
 
@@ -272,6 +274,34 @@ func TestC03(t *testing.T) {
 			d = hx.GenDerived(t, tab.Rows(perm), 0)
 			d.Route = append(d.Route, "presorted input, "+perturb)
 			classes = append(classes, "presorted")
+		case mode == 7: // the receiver is an Aggregate result ordered by its key column (key columns are cut out of the frame's columns)
+			n := rapid.IntRange(2, 40).Draw(t, "n")
+			// string keys from a tiny domain: often nothing but "" and null, so that the pieces a key column is assembled
+			// from are empty
+			dom := rapid.SampledFrom([][]*string{{nil, hx.Sp("")}, {nil, hx.Sp(""), hx.Sp("")}, {nil, hx.Sp(""), hx.Sp("a")}, {nil, hx.Sp("b"), hx.Sp("a"), hx.Sp("")}}).Draw(t, "keydomain")
+			sk := hx.Col{Name: "sk", Kind: hx.KString}
+			ik := hx.Col{Name: "ik", Kind: hx.KInt}
+			for r := 0; r < n; r++ {
+				sk.S = append(sk.S, dom[rapid.IntRange(0, len(dom)-1).Draw(t, "skcell")])
+				ik.I = append(ik.I, rapid.IntRange(0, 2).Draw(t, "ikcell"))
+			}
+			base := withID(hx.Table{Cols: []hx.Col{sk, ik}})
+			pre := hx.GenDerived(t, base, 2)
+			keys := []string{"sk"}
+			if rapid.Bool().Draw(t, "twokeys") {
+				keys = rapid.SampledFrom([][]string{{"sk", "ik"}, {"ik", "sk"}}).Draw(t, "keyorder")
+			}
+			agg := pre.QF.GroupBy(groupby.Columns(keys...), groupby.Null(true)).Aggregate(qframe.Aggregation{Fn: "count", Column: "id", As: "n"}).WithRowNums("id")
+			aobs, err := hx.Observe(agg)
+			if err != nil || agg.Err != nil {
+				t.Fatalf("Aggregate: %v %v\n%s", agg.Err, err, pre.String())
+			}
+			d = hx.Derived{QF: agg, Base: aobs, Sel: hx.Iota(aobs.N()), Exp: aobs, Route: append(pre.Route, fmt.Sprintf("GroupBy(%q, null=true).Aggregate(count id)", keys))}
+			orders = []hx.Order{{Col: "sk", Reverse: rapid.Bool().Draw(t, "rev"), NullLast: rapid.Bool().Draw(t, "nulllast")}}
+			if len(keys) == 2 && rapid.Bool().Draw(t, "secondorder") {
+				orders = append(orders, hx.Order{Col: "ik", Reverse: rapid.Bool().Draw(t, "rev2")})
+			}
+			classes = append(classes, "aggregate-result-receiver")
 		default:
 			histOK = true
 			base := withID(hx.GenTable(t, hx.TableOpt{MinCols: 1, MaxCols: 5, Rows: hx.RowsUpTo(200), AllowDerived: true}))
